@@ -50,14 +50,16 @@ Proof.
   destruct t as [n v sp|n ch sp]; intros s I; cbn [preorder] in I.
   - destruct I as [<-|[]]. constructor.
   - destruct I as [<-|I]; [constructor|].
-    apply in_flat_map in I. destruct I as [c [Ic Is]].
-    apply sub_child with (c := c); [exact Ic|].
-    revert c Ic Is. induction ch as [|c0 ch IH]; intros c Ic Is; [contradiction|].
-    destruct Ic as [->|Ic]; [apply preorder_subtree; exact Is|apply IH; auto].
+    assert (H : exists c, In c ch /\ subtree s c).
+    { clear n sp. induction ch as [|c0 ch IH]; cbn [flat_map] in I; [contradiction|].
+      apply in_app_or in I. destruct I as [I|I].
+      - exists c0. split; [left; reflexivity|apply preorder_subtree; exact I].
+      - destruct (IH I) as [c [A B]]. exists c. split; [right; exact A|exact B]. }
+    destruct H as [c [A B]]. eapply sub_child; eauto.
 Qed.
 
-Lemma surviving_subtree : forall t ks k s, In (Some s) (surviving t ks) -> k = k -> subtree s t.
+Lemma surviving_subtree : forall t ks s, In (Some s) (surviving t ks) -> subtree s t.
 Proof.
-  intros t ks k s I _. unfold surviving in I. apply in_map_iff in I. destruct I as [i [E _]].
+  intros t ks s I. unfold surviving in I. apply in_map_iff in I. destruct I as [i [E _]].
   apply preorder_subtree. eapply nth_error_In; eauto.
 Qed.
